@@ -452,9 +452,8 @@ func (t *FnTrans) builtin(x *ssa.Call, bi *ssa.Builtin, c *ssa.CallCommon, args 
 				return
 			}
 			if _, ok := c.Args[0].Type().Underlying().(*types.Map); ok {
-				f := t.declareFun("map.len", []string{"Int"}, t.mode.idxSort())
-				r := scalar(intT, t.declare(t.fresh("maplen"), t.mode.idxSort()))
-				_ = f
+				mt := c.Args[0].Type().Underlying().(*types.Map)
+				r := scalar(intT, t.mapLenTerm(st, mt, v.S))
 				t.assume(reach, and(t.cmpIdx(">=", r.S, t.mode.intLit64(0, 64)), t.cmpIdx("<=", r.S, t.mode.intLit(pow2(48), 64))), "0 <= len(map) <= 2^48")
 				t.setVal(x, r)
 				return
